@@ -341,3 +341,126 @@ pub fn gen_closure_scenario(rng: &mut Prng) -> (Module, String) {
     }
     (root, name.to_string())
 }
+
+/// C02: allocation-heavy scenario templates (table growth, rows, nested tables, temporaries, library callbacks)
+pub fn gen_gc_scenario(rng: &mut Prng) -> (Module, String) {
+    let mut fns: Vec<(String, Function)> = Vec::new();
+    let mut main: Vec<Card> = vec![set("_", nil())];
+    let name: &str;
+    match rng.below(8) {
+        0 => {
+            name = "gc:table-growth";
+            let n = rng.range(6, 40);
+            main.push(set("t", CardBody::CreateTable.into()));
+            let val = match rng.below(4) {
+                0 => native("concat", vec![read("i"), strc("x")]),
+                1 => native("pair", vec![read("i"), strc("p")]),
+                2 => closure(&[], vec![un("ret", read("i"))]),
+                _ => CardBody::CreateTable.into(),
+            };
+            let stmt = if rng.chance(1, 2) { bin("append", val, read("t")) } else { setprop(val, read("t"), native("concat", vec![strc("k"), read("i")])) };
+            main.push(repeat(int(n), Some("i"), comp(vec![stmt])));
+            main.push(log(un("len", read("t"))));
+            main.push(log(read("t")));
+        }
+        1 => {
+            name = "gc:rows";
+            let n = rng.range(3, 12);
+            main.push(set("t", CardBody::CreateTable.into()));
+            main.push(repeat(int(n), Some("i"), comp(vec![setprop(native("concat", vec![read("i"), strc("v")]), read("t"), native("concat", vec![strc("key"), read("i")]))])));
+            main.push(repeat(int(n), Some("i"), comp(vec![set("_", nil()), set("r", bin("get", read("t"), read("i"))), discard(native("log2", vec![read("r.key"), read("r.value")]))])));
+            // rows of a temporary table
+            main.push(log(bin("get", native("pair", vec![strc("a"), strc("b")]), int(1))));
+        }
+        2 => {
+            name = "gc:nested-tables";
+            let n = rng.range(2, 10);
+            main.push(set("t", CardBody::CreateTable.into()));
+            main.push(repeat(
+                int(n),
+                Some("i"),
+                comp(vec![
+                    set("_", nil()),
+                    set("inner", CardBody::CreateTable.into()),
+                    setprop(native("concat", vec![strc("s"), read("i")]), read("inner"), strc("name")),
+                    bin("append", read("i"), read("inner")),
+                    setprop(read("inner"), read("t"), read("i")),
+                ]),
+            ));
+            main.push(log(read("t")));
+            main.push(setg("g_t", read("t")));
+        }
+        3 => {
+            name = "gc:temporary-closure-called";
+            // the closure value is consumed by the call: only the call frame refers to it while it runs
+            let n = rng.range(1, 6);
+            main.push(set("base", native("concat", vec![strc("b"), int(1)])));
+            main.push(repeat(
+                int(n),
+                Some("i"),
+                comp(vec![
+                    set("_", nil()),
+                    log(dyncall(
+                        closure(&["m"], vec![set("s", native("concat", vec![read("base"), read("m")])), set("u", native("pair", vec![read("s"), read("i")])), un("ret", read("u"))]),
+                        vec![read("i")],
+                    )),
+                ]),
+            ));
+        }
+        4 => {
+            name = "gc:library-allocating-callbacks";
+            let n = rng.range(2, 14);
+            main.push(set("t", CardBody::CreateTable.into()));
+            main.push(repeat(int(n), Some("i"), comp(vec![bin("append", bin("sub", int(100), bin("mul", read("i"), int(7))), read("t"))])));
+            let f = *rng.pick(&["sorted_by_key", "min_by_key", "max_by_key", "map", "filter", "any"]);
+            let cb = match f {
+                "map" | "filter" | "any" => closure(&["k", "v"], vec![set("s", native("concat", vec![read("v"), read("k")])), un("ret", un("len", read("s")))]),
+                _ => closure(&["k", "v"], vec![set("s", native("pair", vec![read("v"), read("k")])), un("ret", bin("sub", int(0), read("v")))]),
+            };
+            main.push(log(call(&format!("std.{f}"), vec![cb, read("t")])));
+            main.push(log(call("std.sorted", vec![read("t")])));
+            main.push(log(call("std.to_array", vec![call("std.sorted", vec![read("t")])])));
+            main.push(log(call("std.max", vec![read("t")])));
+        }
+        5 => {
+            name = "gc:host-reentry-allocating";
+            let cards = vec![set("_", nil()), set("s", native("concat", vec![read("m"), strc("!")])), un("ret", native("pair", vec![read("s"), read("m")]))];
+            fns.push(("mk".into(), func(&["m"], cards)));
+            let n = rng.range(1, 6);
+            main.push(set("acc", CardBody::CreateTable.into()));
+            main.push(repeat(int(n), Some("i"), comp(vec![bin("append", native("apply1", vec![CardBody::Function("mk".into()).into(), read("i")]), read("acc"))])));
+            main.push(log(read("acc")));
+        }
+        6 => {
+            name = "gc:temporaries-on-stack";
+            // several freshly allocated operands are live on the value stack while the next one is allocated
+            let n = rng.range(1, 5);
+            main.push(repeat(
+                int(n),
+                Some("i"),
+                comp(vec![
+                    set("_", nil()),
+                    discard(native("log3", vec![native("concat", vec![read("i"), strc("a")]), native("pair", vec![native("concat", vec![strc("b"), read("i")]), CardBody::CreateTable.into()]), native("concat", vec![strc("c"), read("i")])])),
+                    set("x", bin("eq", native("concat", vec![read("i"), strc("q")]), native("concat", vec![read("i"), strc("q")]))),
+                    log(read("x")),
+                ]),
+            ));
+        }
+        _ => {
+            name = "gc:closures-in-tables";
+            let n = rng.range(2, 8);
+            main.push(set("t", CardBody::CreateTable.into()));
+            main.push(repeat(
+                int(n),
+                Some("i"),
+                comp(vec![set("_", nil()), set("s", native("concat", vec![strc("cap"), read("i")])), bin("append", closure(&[], vec![un("ret", native("concat", vec![read("s"), read("i")]))]), read("t"))]),
+            ));
+            main.push(foreach(None, None, Some("f"), read("t"), comp(vec![set("_", nil()), log(dyncall(read("f"), vec![]))])));
+            main.push(foreach(None, None, Some("f"), read("t"), comp(vec![set("_", nil()), log(native("apply0", vec![read("f")]))])));
+        }
+    }
+    let mut root = Module::default();
+    root.functions = fns;
+    root.functions.push(("main".to_string(), func(&[], main)));
+    (root, name.to_string())
+}
